@@ -1,6 +1,10 @@
 mod blocks;
 mod bufsim;
 mod engine;
+mod graphs;
+mod graphsim;
+mod hblocks;
+mod mt;
 mod datagen;
 mod hdlc;
 mod rig;
@@ -14,6 +18,11 @@ fn checks() -> Vec<Box<dyn Check>> {
     vec![
         Box::new(bufsim::BufCheck { prop: "C01" }),
         Box::new(bufsim::BufCheck { prop: "C02" }),
+        Box::new(mt::SpscCheck),
+        Box::new(mt::EosCheck),
+        Box::new(mt::MtGraphCheck),
+        Box::new(graphsim::GraphCheck),
+        Box::new(graphsim::CancelCheck),
         Box::new(rigcheck::RigCheck { prop: "C08" }),
         Box::new(rigcheck::RigCheck { prop: "C09" }),
         Box::new(rigcheck::RigCheck { prop: "C10" }),
